@@ -6,6 +6,8 @@ CONSTANTS
   Summaries = {"absent", "short", "utf8"}
   Unknowns = {"none", "before", "after", "between"}
   Shapes = {"mdir", "mdirqt", "mdta", "zero", "noilst", "nometa", "noudta"}
+  Hdrs = {"small", "data", "item", "all"}
+  MMetas = {"none", "mdtaBefore", "mdirAfter", "mdirBefore"}
   Orders = {"fwd", "rev"}
 INVARIANTS MetaRoundTrip Emit
 CHECK_DEADLOCK FALSE
